@@ -451,7 +451,7 @@ func replayRun(prog *Prog, c *VC, o *Obligation, dir, repo string, rep *replayRe
 				if call, ok := es.X.(*ast.CallExpr); ok {
 					if id, ok := call.Fun.(*ast.Ident); ok {
 						switch {
-						case id.Name == "requires":
+						case id.Name == "requires" || id.Name == "domain":
 							sb.WriteString(nodeText(prog, s) + "\n")
 							continue
 						case id.Name == "ensures" || id.Name == "ensuresGoal":
@@ -503,6 +503,23 @@ func replayRun(prog *Prog, c *VC, o *Obligation, dir, repo string, rep *replayRe
 			a = append(append([]string{}, names...), strings.Split(zeroRes(), ", ")...)
 		}
 		fmt.Fprintf(&body, "\t%s(%s)\n", closure(true), strings.Join(a, ", "))
+		// old(e) over byte-slice parameters reads a snapshot taken before the call (the function may
+		// overwrite its inputs in place)
+		oldNames := map[string]string{}
+		if K != nil {
+			ks := K.Obj.Type().(*types.Signature)
+			for i := 0; i < ks.Params().Len() && i < len(names); i++ {
+				pv := ks.Params().At(i)
+				if sl, ok := pv.Type().Underlying().(*types.Slice); ok {
+					if bt, ok := sl.Elem().Underlying().(*types.Basic); ok && bt.Kind() == types.Uint8 && pv.Name() != "" && pv.Name() != "_" {
+						sn := "verifOld_" + pv.Name()
+						oldNames[pv.Name()] = sn
+						fmt.Fprintf(&body, "\tvar %s []byte\n\tif %s != nil {\n\t\t%s = append(make([]byte, 0, cap(%s)), %s[:cap(%s)]...)[:len(%s)]\n\t}\n\t_ = %s\n", sn, names[i], sn, names[i], names[i], names[i], names[i], sn)
+					}
+				}
+			}
+		}
+		postClosure := rewriteOld(closure(false), oldNames)
 		fmt.Fprintf(&body, "\tverifPhase = \"run\"\n")
 		if len(resNames) > 0 {
 			fmt.Fprintf(&body, "\t%s := %s\n", strings.Join(resNames, ", "), callExpr)
@@ -510,7 +527,7 @@ func replayRun(prog *Prog, c *VC, o *Obligation, dir, repo string, rep *replayRe
 			fmt.Fprintf(&body, "\t%s\n", callExpr)
 		}
 		fmt.Fprintf(&body, "\tverifPhase = \"post\"\n")
-		fmt.Fprintf(&body, "\t%s(%s)\n", closure(false), strings.Join(append(append([]string{}, names...), resNames...), ", "))
+		fmt.Fprintf(&body, "\t%s(%s)\n", postClosure, strings.Join(append(append([]string{}, names...), resNames...), ", "))
 	}
 	var src strings.Builder
 	src.WriteString("//go:build verif\n\npackage " + pkg.Types.Name() + "\n\nimport (\n\t\"fmt\"\n\t\"strings\"\n\t\"testing\"\n")
@@ -722,4 +739,67 @@ func (c *VC) sweepDecls(qual types.Qualifier) (decls, names []string, ok bool) {
 		}
 	}
 	return decls, names, true
+}
+
+// rewriteOld replaces, inside every old(...) of the closure text, the byte-slice parameter names by
+// the names of their pre-call snapshots.
+func rewriteOld(text string, names map[string]string) string {
+	if len(names) == 0 {
+		return text
+	}
+	var out strings.Builder
+	for {
+		i := strings.Index(text, "old(")
+		if i < 0 || (i > 0 && (isIdentByte(text[i-1]))) {
+			if i < 0 {
+				out.WriteString(text)
+				return out.String()
+			}
+			out.WriteString(text[:i+4])
+			text = text[i+4:]
+			continue
+		}
+		// find the matching parenthesis
+		depth, j := 0, i+3
+		for ; j < len(text); j++ {
+			if text[j] == '(' {
+				depth++
+			} else if text[j] == ')' {
+				depth--
+				if depth == 0 {
+					break
+				}
+			}
+		}
+		if j >= len(text) {
+			out.WriteString(text)
+			return out.String()
+		}
+		inner := text[i+4 : j]
+		for n, sn := range names {
+			inner = replaceIdent(inner, n, sn)
+		}
+		out.WriteString(text[:i+4])
+		out.WriteString(inner)
+		out.WriteString(")")
+		text = text[j+1:]
+	}
+}
+
+func isIdentByte(b byte) bool {
+	return b == '_' || b >= '0' && b <= '9' || b >= 'a' && b <= 'z' || b >= 'A' && b <= 'Z'
+}
+
+func replaceIdent(s, name, with string) string {
+	var out strings.Builder
+	for i := 0; i < len(s); {
+		if strings.HasPrefix(s[i:], name) && (i == 0 || !isIdentByte(s[i-1]) && s[i-1] != '.') && (i+len(name) == len(s) || !isIdentByte(s[i+len(name)])) {
+			out.WriteString(with)
+			i += len(name)
+			continue
+		}
+		out.WriteByte(s[i])
+		i++
+	}
+	return out.String()
 }
